@@ -47,6 +47,46 @@ store_harness!(c12_deleted_id_changes_nothing, {
     core::mem::forget(store);
 });
 
+//@ harness: c12_deleted_address_changes_nothing
+//@ tier: quick
+//@ timeout: 700
+//@ mem: 20
+//@ covers: any
+//@ unwindset: put_bytes=80; heed::bytes_=260; heed::Table=6; memcmp.0=70; repeat::Repeat=190; Repeat.*try_fold=190; mmap_append=200; read_hex=34; enc_tags=6; c12_deleted=70
+//@ cbmc: --max-field-sensitivity-array-size 1100
+//@ encodes: Store::store_event (deleted-address path for a parameterized-replaceable event), Lmdb::when_is_naddr_deleted, Tags::get_value, Store::stats, heed model rollback
+//@ bounds: a store whose only content is an accepted deletion of the address (30023, author, "x") at time 4224; storing an event at that address with an ARBITRARY created_at <= 4224 (one arbitrary byte) is refused as deleted: no durable commit carried an effective put/delete, the event is not retrievable, the recorded deletion time is unchanged and the statistics still count 0 index entries and 1 deleted address
+store_harness!(c12_deleted_address_changes_nothing, {
+    let store = verif_store();
+    let addr = Addr { kind: Kind::from_u16(30023), author: Pubkey::from_bytes(PK_1), d: vec![b'x'] };
+    {
+        let mut txn = ok!(store.indexes.write_txn());
+        ok!(store.indexes.mark_naddr_deleted(&mut txn, &addr, Time::from_u64(0x1080)));
+        ok!(txn.commit());
+    }
+    let env = crate::lmdb::verif_db_lmdb_helper::env_of(&store.indexes);
+    let commits = heed::verif::mutating_commits(env);
+    let lo: u8 = kani::any();
+    let t: u64 = 0x1000 + lo as u64;
+    kani::assume(t <= 0x1080);
+    let mut b = [0u8; 200];
+    let n = enc_event_img(30023, t, &ID_B, &PK_1, &SIG_0, &[&[1, 1]], b"dx", b"", &mut b);
+    let o = outcome(store.store_event(as_event(&b[..n])));
+    kani::cover!(t == 0x1080);
+    assert!(o == Outcome::Deleted);
+    assert!(heed::verif::mutating_commits(env) == commits, "a store that failed as deleted made a durable change");
+    assert!(!has(&store, &ID_B));
+    assert!(ok!(store.naddr_is_deleted_asof(&addr)) == Some(Time::from_u64(0x1080)));
+    let s = ok!(store.stats());
+    let ix = &s.index_stats;
+    assert!(ix.i_index_entries == 0 && ix.ci_index_entries == 0 && ix.ac_index_entries == 0 && ix.akc_index_entries == 0);
+    assert!(ix.tc_index_entries == 0 && ix.atc_index_entries == 0 && ix.ktc_index_entries == 0);
+    assert!(ix.deleted_index_entries == 0 && ix.deleted_naddr_index_entries == 1);
+    core::mem::forget(s);
+    core::mem::forget(addr);
+    core::mem::forget(store);
+});
+
 //@ harness: c12_duplicate_changes_nothing
 //@ tier: thorough
 //@ timeout: 3000
